@@ -731,7 +731,7 @@ func cmdReplay(path string) int {
 }
 
 func main() {
-	debug.SetGCPercent(200)
+	debug.SetGCPercent(1000)
 	if len(os.Args) < 2 {
 		fmt.Fprintln(os.Stderr, "usage: vcheck run <PROP> [flags] | replay <path> | selftest")
 		os.Exit(2)
